@@ -1,37 +1,53 @@
 /-
   C14 — pool contents always equal the loaded values minus the deleted ones, in pool-key order.
   Property theorems only (model: Zed/Model/Lake*.lean; lemmas: Zed/Proofs/Lake*.lean).
+
+  `refinement` is the core theorem: for every operation of C14 the contents of a branch after
+  the step are what the reference `SpecStep` predicts from the contents before it;
+  `contents_correct` is its corollary over every history (by induction), `history_invariant`
+  shows that the id-freshness invariant the steps need is preserved by every operation.
 -/
 import Zed.Proofs.LakeSorted
-import Zed.Proofs.LakeCompact
-import Zed.Proofs.LakeFresh
+import Zed.Proofs.LakeRefine
 namespace Zed.Props.C14
 open Zed.Lake
 
 variable {K V : Type} [DecidableEq V]
 
-omit [DecidableEq V] in
-/-- a commit id whose snapshot can be computed exists -/
-theorem snapAt_ok_le (cs : List (Commit K)) (t : Nat) (snap : Snap K) (h : snapAt cs t = .ok snap) :
-    t ≤ cs.length := by
-  unfold snapAt parentSnap at h
-  by_cases h0 : t = 0
-  · omega
-  · simp only [h0, if_false] at h
-    cases hg : (snapsOf cs)[t - 1]? with
-    | none => simp [hg] at h
-    | some r =>
-      have := (List.getElem?_eq_some_iff.mp hg).1
-      rw [snapsOf_length] at this
-      omega
+/-- **history invariant.**  For every history — of any length, of ANY operations (loads,
+    deletes, delete-wheres, compactions, vector adds/deletes, vacuums, branch creations, merges,
+    reverts, successful or failed) — from a state satisfying the invariant `Good` (object ids
+    and file ids below the id counter, every object's `count` = length of its file; in
+    particular from the empty pool, `Good.init`), the invariant holds again. -/
+theorem history_invariant (cfg : Cfg K V) (s : State K V) (ops : List (Op V)) (g : Good s) :
+    Good (run cfg s ops) := run_good cfg s ops g
 
-omit [DecidableEq V] in
-/-- the snapshot of a freshly committed object is its parent's snapshot with the actions played -/
-theorem commit_snap (s : State K V) (b t : Nat) (acts : List (Action K)) (snap : Snap K)
-    (h : snapAt s.commits t = .ok snap) :
-    snapAt (s.commit b t acts).commits (s.commits.length + 1) = play snap acts := by
-  rw [commit_commits, snapAt_new, commitSnap_eq]
-  simp only [h]
+/-- **refinement** (`abs (step s op) = specStep (abs s) op`), every operation of C14: load,
+    delete by id, delete-where, compaction (with or without vectors), vector add / delete,
+    vacuum, branch creation — on the branch itself or on any other branch.  If branch `b` is
+    readable with contents `cs` (`State.contents`: the values held by the objects of its tip
+    snapshot), then after the operation it is readable again and its contents are what the
+    reference `SpecStep` says: a load adds exactly the loaded values (any threshold, any
+    partition into objects), a delete removes exactly the values of the listed objects (ids in
+    any order, repeated or not), a delete-where keeps exactly the values its complement filter
+    `keep` holds of, everything else changes nothing.
+    Side conditions (`Op.okFor`): a vacuum is of the branch's own tip; vector operations list
+    each id once (otherwise FALSE of the code: `not_addVectors_readable`). -/
+theorem refinement (cfg : Cfg K V) (s s' : State K V) (op : Op V) (b t : Nat) (cs : List V)
+    (g : Good s) (ha : apply cfg s op = .ok s') (h14 : op.isC14 = true) (hok : op.okFor t)
+    (ht : s.tip b = some t) (hc : s.contents t = .ok cs) :
+    ∃ t' cs', s'.tip b = some t' ∧ s'.contents t' = .ok cs' ∧ SpecStep s op b t cs cs' :=
+  Zed.Lake.refinement cfg s s' op b t cs g ha h14 hok ht hc
+
+/-- **contents_correct.**  For every history of C14 operations — any length, any mixture of
+    successful and failed operations, on any branches — the branch stays readable and its
+    contents are exactly what the reference predicts step by step (`SpecRun`): everything loaded
+    minus everything deleted.  Corollary of `refinement` and `history_invariant` by induction. -/
+theorem contents_correct (cfg : Cfg K V) (ops : List (Op V)) (s : State K V) (b t : Nat) (cs : List V)
+    (g : Good s) (ht : s.tip b = some t) (hc : s.contents t = .ok cs) (hok : OkRun cfg s ops b) :
+    ∃ t' cs', (run cfg s ops).tip b = some t' ∧ (run cfg s ops).contents t' = .ok cs' ∧
+      SpecRun cfg s ops b cs cs' :=
+  Zed.Lake.contents_correct cfg ops s b t cs g ht hc hok
 
 omit [DecidableEq V] in
 /-- **scan contents** (`contents_correct`, read side).  Whatever the object layout, the lister
@@ -44,154 +60,29 @@ theorem scan_contents (cfg : Cfg K V) (s : State K V) (c : Nat) (snap : Snap K) 
   simp only [hs] at h
   exact scanObjs_perm cfg s.files snap.objs r h
 
-omit [DecidableEq V] in
-/-- **delete by id** (object-set refinement).  A successful `delete(ids)` — ids in any order,
-    with or without repetitions (`Branch.Delete` de-duplicates the list since fix f09056a37;
-    before it a repeated id made the branch unreadable) — yields a readable tip whose objects
-    are exactly the previous ones minus `ids`; vectors are untouched. -/
-theorem delete_exact (s s' : State K V) (b : Nat) (ids : List Nat)
-    (h : delete s b ids = .ok s') :
-    ∃ t snap snap', s.tip b = some t ∧ snapAt s.commits t = .ok snap ∧
-      snapAt s'.commits (s.commits.length + 1) = .ok snap' ∧ snap'.vecs = snap.vecs ∧
-      ∀ id, snap'.hasObj id = (snap.hasObj id && !ids.contains id) := by
-  unfold delete at h
-  simp only [] at h
-  split at h
-  · cases h
-  · rename_i t ht
-    split at h
-    · cases h
-    · rename_i snap hs
-      split at h
-      · rename_i hall
-        cases h
-        obtain ⟨snap', h1, h2, h3⟩ := play_dels snap (uniqueIds ids) (nodup_uniqueIds ids) (by
-          intro id hid
-          exact (List.all_eq_true.mp hall) id hid)
-        refine ⟨t, snap, snap', ht, hs, by rw [commit_snap s b t _ snap hs, h1], h2, ?_⟩
-        intro id
-        rw [h3 id, contains_uniqueIds]
-      · cases h
+/-! ### the single steps, at snapshot level -/
 
-omit [DecidableEq V] in
-private theorem flatMap_congr' {α β : Type} (l : List α) (f g : α → List β) (h : ∀ a ∈ l, f a = g a) :
-    l.flatMap f = l.flatMap g := by
-  induction l with
-  | nil => rfl
-  | cons a as ih =>
-    simp only [List.flatMap_cons]
-    rw [h a (by simp), ih (fun x hx => h x (by simp [hx]))]
-
-omit [DecidableEq V] in
-private theorem hasObj_false_of_lt (snap : Snap K) (n id : Nat) (h : ∀ o ∈ snap.objs, o.id < n) (hid : n ≤ id) :
-    snap.hasObj id = false := by
-  cases hc : snap.hasObj id with
-  | false => rfl
-  | true =>
-    obtain ⟨o, ho, hoid⟩ := List.any_eq_true.mp hc
-    have := h o ho
-    have : o.id = id := by simpa using hoid
-    omega
-
-/-- **refinement, load** (`abs (step s (load vals)) = abs s ⊎ vals`).  A successful load makes
-    the branch tip readable and its contents — the values held by the objects of its snapshot —
-    the previous contents plus exactly the loaded values, for every threshold (any partition of
-    the input into buffers), every comparator and every earlier history.  Freshness of object
-    ids (`KSUID` uniqueness) appears as the two hypotheses on `nextObj`. -/
+/-- **load**: contents = previous contents ⊎ loaded values -/
 theorem load_refines (cfg : Cfg K V) (s s' : State K V) (b : Nat) (vals : List V) (parts : List (List V))
     (h : load cfg s b vals parts = .ok s')
     (hfiles : ∀ f ∈ s.files, f.1 < s.nextObj) :
     ∃ t, s.tip b = some t ∧ ∀ snap, snapAt s.commits t = .ok snap → (∀ o ∈ snap.objs, o.id < s.nextObj) →
       ∃ snap', snapAt s'.commits (s.commits.length + 1) = .ok snap' ∧ snap'.vecs = snap.vecs ∧
-        (snap'.objs.flatMap (pay s'.files)).Perm (snap.objs.flatMap (pay s.files) ++ vals) := by
-  unfold load at h
-  split at h
-  · cases h
-  · rename_i t ht
-    refine ⟨t, ht, ?_⟩
-    intro snap hs hfresh
-    split at h
-    · cases h
-    · split at h
-      · cases h
-      · rename_i hperm
-        simp only [] at h
-        have w := writeObjs_spec cfg s parts hfiles
-        cases hw : writeObjs cfg s parts with
-        | mk s1 objs =>
-          rw [hw] at h w
-          simp only [] at h w
-          cases h
-          have hc1 : s1.commits = s.commits := by
-            have := writeObjs_commits cfg s parts; rw [hw] at this; exact this
-          have hs1 : snapAt s1.commits t = .ok snap := by rw [hc1]; exact hs
-          have hplay := play_adds snap objs w.nodup (by
-            intro o ho
-            exact hasObj_false_of_lt snap s.nextObj o.id hfresh (w.ids o ho).1)
-          have hlen : s.commits.length = s1.commits.length := by rw [hc1]
-          refine ⟨{ snap with objs := snap.objs ++ objs }, by rw [hlen, commit_snap s1 b t _ snap hs1, hplay], rfl, ?_⟩
-          simp only [commit_files, List.flatMap_append]
-          obtain ⟨e, he, hee⟩ := w.ext
-          have hold : snap.objs.flatMap (pay s1.files) = snap.objs.flatMap (pay s.files) := by
-            apply flatMap_congr'
-            intro o ho
-            unfold pay
-            rw [he, fileOf_append_none]
-            intro f hf
-            have := (hee f hf).1
-            have := hfresh o ho
-            omega
-          rw [hold, w.payload]
-          apply List.Perm.append_left
-          have hp : parts.Perm ((chunk cfg vals).map (sortVals cfg)) := by
-            have : parts.isPerm ((chunk cfg vals).map (sortVals cfg)) = true := by simpa using hperm
-            exact List.isPerm_iff.mp this
-          exact (hp.flatten).trans ((flatten_map_sort_perm cfg _).trans (by rw [chunk_flatten]))
+        (snap'.objs.flatMap (pay s'.files)).Perm (snap.objs.flatMap (pay s.files) ++ vals) ∧
+        ∀ o ∈ snap'.objs, o ∈ snap.objs ∨ (fileOf s'.files o.id).isSome = true :=
+  Zed.Lake.load_refines cfg s s' b vals parts h hfiles
 
-omit [DecidableEq V] in
-/-- **refinement, delete by id** (value level): the previous contents are the new contents plus
-    exactly the values of the deleted objects; nothing else changes. -/
-theorem delete_refines (s s' : State K V) (b : Nat) (ids : List Nat)
+/-- **delete by id** (object-set refinement).  A successful `delete(ids)` — ids in any order,
+    with or without repetitions (`Branch.Delete` de-duplicates the list since fix f09056a37) —
+    yields a readable tip whose objects are exactly the previous ones minus `ids`. -/
+theorem delete_exact (s s' : State K V) (b : Nat) (ids : List Nat)
     (h : delete s b ids = .ok s') :
     ∃ t snap snap', s.tip b = some t ∧ snapAt s.commits t = .ok snap ∧
-      snapAt s'.commits (s.commits.length + 1) = .ok snap' ∧ s'.files = s.files ∧
-      (snap.objs.flatMap (pay s.files)).Perm
-        (snap'.objs.flatMap (pay s'.files) ++ (snap.objs.filter (fun o => ids.contains o.id)).flatMap (pay s.files)) := by
-  obtain ⟨t, snap, snap', ht, hs, hs', _, _⟩ := delete_exact s s' b ids h
-  have hf : s'.files = s.files := by
-    unfold delete at h
-    simp only [] at h
-    rw [ht] at h
-    simp only [hs] at h
-    split at h
-    · cases h; rfl
-    · cases h
-  have hplay : play snap ((uniqueIds ids).map .del) = .ok snap' := by
-    unfold delete at h
-    simp only [] at h
-    rw [ht] at h
-    simp only [hs] at h
-    split at h
-    · cases h
-      rw [commit_snap s b t _ snap hs] at hs'
-      exact hs'
-    · cases h
-  obtain ⟨hobjs, _⟩ := play_dels_objs snap snap' (uniqueIds ids) hplay
-  have hobjs : snap'.objs = snap.objs.filter (fun o => !ids.contains o.id) := by
-    rw [hobjs]; congr 1; funext o; rw [contains_uniqueIds]
-  refine ⟨t, snap, snap', ht, hs, hs', hf, ?_⟩
-  rw [hf, hobjs, ← List.flatMap_append]
-  exact ((List.filter_append_perm (fun o => !ids.contains o.id) snap.objs).symm.trans
-    (by
-      have : (snap.objs.filter fun o => !!ids.contains o.id) = snap.objs.filter (fun o => ids.contains o.id) := by
-        congr 1; funext o; cases ids.contains o.id <;> rfl
-      rw [this])).flatMap_right _
+      snapAt s'.commits (s.commits.length + 1) = .ok snap' ∧ snap'.vecs = snap.vecs ∧
+      ∀ id, snap'.hasObj id = (snap.hasObj id && !ids.contains id) :=
+  delete_exact_ s s' b ids h
 
-/-- **refinement, compaction** (`abs (step s (compact ids)) = abs s`).  A successful compaction
-    — any set of source objects, with or without vectors, any cut of the merged output into new
-    objects that the model's validation accepts — leaves the branch readable with exactly the
-    same contents.  Hypotheses: fresh ids as in `load_refines`, and distinct object ids in the
-    tip snapshot (the discipline `Snapshot.AddDataObject` enforces). -/
+/-- **compaction**: contents unchanged -/
 theorem compact_refines (cfg : Cfg K V) (s s' : State K V) (b : Nat) (ids : List Nat) (vec : Bool)
     (parts : List (List V)) (h : compact cfg s b ids vec parts = .ok s')
     (hfiles : ∀ f ∈ s.files, f.1 < s.nextObj) :
@@ -199,45 +90,41 @@ theorem compact_refines (cfg : Cfg K V) (s s' : State K V) (b : Nat) (ids : List
       (∀ o ∈ snap.objs, o.id < s.nextObj) → (∀ v ∈ snap.vecs, v < s.nextObj) →
       (snap.objs.map (·.id)).Nodup →
       ∃ snap', snapAt s'.commits (s.commits.length + 1) = .ok snap' ∧
-        (snap'.objs.flatMap (pay s'.files)).Perm (snap.objs.flatMap (pay s.files)) :=
+        (snap'.objs.flatMap (pay s'.files)).Perm (snap.objs.flatMap (pay s.files)) ∧
+        ∀ o ∈ snap'.objs, o ∈ snap.objs ∨ (fileOf s'.files o.id).isSome = true :=
   Zed.Lake.compact_refines cfg s s' b ids vec parts h hfiles
 
-/-- **history invariant.**  For every history — of any length — of loads, deletes,
-    compactions, vector adds/deletes, vacuums and branch creations from a state satisfying the
-    freshness invariant `Good` (in particular from the empty pool, `Good.init`), the invariant
-    holds again; so the hypotheses of `load_refines` / `compact_refines` hold at every step of
-    every such history (`refinement_load`, `refinement_compact` below). -/
-theorem history_invariant (cfg : Cfg K V) (s : State K V) (ops : List (Op V))
-    (hp : ops.all Op.isPlain = true) (g : Good s) : Good (run cfg s ops) := run_good cfg s ops hp g
+/-- **delete-where** (`deletewhere_exact`): contents = previous values for which the complement
+    filter holds; vectors untouched -/
+theorem deleteWhere_refines (cfg : Cfg K V) (s s' : State K V) (b : Nat) (keep : V → Bool)
+    (parts : List (List V)) (g : Good s) (h : deleteWhere cfg s b keep parts = .ok s') :
+    ∃ t, s.tip b = some t ∧ ∀ snap, snapAt s.commits t = .ok snap →
+      ∃ snap', snapAt s'.commits (s.commits.length + 1) = .ok snap' ∧ snap'.vecs = snap.vecs ∧
+        (snap'.objs.flatMap (pay s'.files)).Perm ((snap.objs.flatMap (pay s.files)).filter keep) ∧
+        ∀ o ∈ snap'.objs, o ∈ snap.objs ∨ (fileOf s'.files o.id).isSome = true :=
+  Zed.Lake.deleteWhere_refines cfg s s' b keep parts g h
 
-/-- **refinement** for load, stated with the invariant only -/
-theorem refinement_load (cfg : Cfg K V) (s s' : State K V) (b : Nat) (vals : List V) (parts : List (List V))
-    (g : Good s) (h : load cfg s b vals parts = .ok s') :
-    Good s' ∧ ∃ t, s.tip b = some t ∧ ∀ snap, snapAt s.commits t = .ok snap →
-      ∃ snap', snapAt s'.commits (s.commits.length + 1) = .ok snap' ∧
-        (snap'.objs.flatMap (pay s'.files)).Perm (snap.objs.flatMap (pay s.files) ++ vals) := by
-  refine ⟨load_good cfg s s' b vals parts g h, ?_⟩
-  obtain ⟨t, ht, hr⟩ := load_refines cfg s s' b vals parts h g.files
-  refine ⟨t, ht, ?_⟩
-  intro snap hs
-  obtain ⟨snap', h1, _, h2⟩ := hr snap hs (Good.snap s g t snap hs).1
-  exact ⟨snap', h1, h2⟩
-
-/-- **refinement** for compaction, stated with the invariant only -/
-theorem refinement_compact (cfg : Cfg K V) (s s' : State K V) (b : Nat) (ids : List Nat) (vec : Bool)
-    (parts : List (List V)) (g : Good s) (h : compact cfg s b ids vec parts = .ok s') :
-    Good s' ∧ ∃ t, s.tip b = some t ∧ ∀ snap, snapAt s.commits t = .ok snap →
-      ∃ snap', snapAt s'.commits (s.commits.length + 1) = .ok snap' ∧
-        (snap'.objs.flatMap (pay s'.files)).Perm (snap.objs.flatMap (pay s.files)) := by
-  refine ⟨compact_good cfg s s' b ids vec parts g h, ?_⟩
-  obtain ⟨t, ht, hr⟩ := compact_refines cfg s s' b ids vec parts h g.files
-  refine ⟨t, ht, ?_⟩
-  intro snap hs
-  have hb := Good.snap s g t snap hs
-  exact hr snap hs hb.1 hb.2 (snapAt_nodup s.commits t snap hs)
-
-/-- non-vacuity: the empty pool satisfies the invariant -/
-example : Good ({} : State K V) := Good.init
+omit [DecidableEq V] in
+/-- **vacuum_safe**: vacuuming commit `c` removes no data object of `c`'s own snapshot -/
+theorem vacuum_safe (s s' : State K V) (c : Nat) (snap : Snap K) (h : vacuum s c = .ok s')
+    (hs : snapAt s.commits c = .ok snap) :
+    s'.commits = s.commits ∧ ∀ o ∈ snap.objs, fileOf s'.files o.id = fileOf s.files o.id := by
+  obtain ⟨hcm, ids, hv, hf⟩ := vacuum_spec s s' c h
+  refine ⟨hcm, ?_⟩
+  intro o ho
+  rw [hf, fileOf_filter_id s.files (fun i => !ids.contains i)]
+  have : ids.contains o.id = false := by
+    unfold vacuumable at hv
+    rw [hs] at hv
+    simp only [Except.ok.injEq] at hv
+    subst hv
+    cases hcn : (List.filter (fun i => !snap.hasObj i) (addedIds (pathActions s.commits (List.drop 1 (pathAt s.commits c))))).contains o.id with
+    | false => rfl
+    | true =>
+      have hm := List.contains_iff_mem.mp hcn
+      have := (List.mem_filter.mp hm).2
+      rw [hasObj_of_mem snap o ho] at this; cases this
+  simp only [this, Bool.not_false, if_true]
 
 omit [DecidableEq V] in
 /-- **object_meta_correct.**  The metadata `data.Writer` records for an object equals that of
@@ -336,6 +223,19 @@ theorem not_object_meta_correct :
     ∃ o, mkObj thisCfg 1 [1, 2] = some o ∧ isSorted thisCfg [1, 2] = true ∧
       thisCfg.kle o.min (thisCfg.key 1) = false := ⟨_, rfl, rfl, rfl⟩
 
+/-! negation witness for the vector operations with a repeated id -/
+private def vecState : State Nat Nat :=
+  { commits := [{ parent := 0, acts := [.add { id := 1, min := 1, max := 1, count := 1 }] }],
+    branches := [(0, 1)], files := [(1, [1])], nextObj := 2 }
+
+/-- **not_addVectors_readable**: `AddVectors(main, [1, 1])` is acknowledged and leaves `main`
+    unreadable (`add of a duplicate vector of data object`): `Branch.AddVectors` checks every
+    listed id against the tip snapshot and then emits one `AddVector` per listed id.  Replayed
+    on the real code by the harness (witness:duplicate-vector-id). -/
+theorem not_addVectors_readable :
+    ∃ s', addVectors vecState 0 [1, 1] = .ok s' ∧ s'.tip 0 = some 2 ∧
+      snapAt s'.commits 2 = .error .dupVector := ⟨_, rfl, rfl, rfl⟩
+
 /-! the former negation witness (one object, `delete [1, 1]`): since fix f09056a37 the model,
     like the code, de-duplicates, and the branch stays readable -/
 private def dupState : State Nat Nat :=
@@ -346,6 +246,26 @@ private def dupState : State Nat Nat :=
     real code by the harness, witness:duplicate-id) -/
 example : ∃ s' snap, delete dupState 0 [1, 1] = .ok s' ∧ s'.tip 0 = some 2 ∧
     snapAt s'.commits 2 = .ok snap ∧ snap.objs = [] := ⟨_, _, rfl, rfl, rfl, rfl⟩
+
+/-- non-vacuity of `refinement` / `contents_correct`: a state satisfying the invariant with a
+    readable branch, and a history satisfying the side conditions -/
+example : Good dupState := by
+  refine ⟨by decide, ?_⟩
+  intro c hc
+  simp only [dupState, List.mem_singleton] at hc
+  subst hc
+  intro a ha
+  simp only [List.mem_singleton] at ha
+  subst ha
+  refine ⟨by decide, ?_⟩
+  intro p hp
+  have : fileOf dupState.files 1 = some [1] := rfl
+  rw [show ({ id := 1, min := 1, max := 1, count := 1 } : Obj Nat).id = 1 from rfl] at hp
+  simp only [dupState] at hp this
+  rw [this] at hp
+  cases hp; rfl
+example : dupState.tip 0 = some 1 ∧ dupState.contents 1 = .ok [1] := ⟨rfl, rfl⟩
+example (cfg : Cfg Nat Nat) : OkRun cfg dupState [.delete 0 [1, 1]] 0 := ⟨rfl, fun _ _ => trivial, trivial⟩
 
 /-- non-vacuity of `load_refines`: the freshness hypotheses hold in `dupState` -/
 example : (∀ f ∈ dupState.files, f.1 < dupState.nextObj) ∧
